@@ -2,6 +2,7 @@ package ch
 
 import (
 	"context"
+	"net"
 
 	"github.com/go-faster/errors"
 	"go.opentelemetry.io/otel/trace"
@@ -54,8 +55,19 @@ func (c *Client) handshake(ctx context.Context) error {
 			return errors.Wrap(err, "flush")
 		}
 
-		code, err := c.packet(ctx)
-		if err != nil {
+		var code proto.ServerCode
+		for {
+			var err error
+			if code, err = c.packet(ctx); err == nil {
+				break
+			}
+			// The read timeout bounds the wait for a single packet; the
+			// hello of a busy or waking server is allowed to take up to
+			// the handshake timeout, i.e. until ctx is done.
+			var opErr *net.OpError
+			if errors.As(err, &opErr) && opErr.Timeout() && ctx.Err() == nil {
+				continue
+			}
 			return errors.Wrap(err, "packet")
 		}
 		if code == proto.ServerCodeException {
